@@ -26,7 +26,7 @@ def refs_heap():
 @register
 class DeleteReference(Contract):
     fn = "gfapy/line/common/disconnection.py::Disconnection._delete_reference"
-    props = ("C02", "C05")
+    props = ("C02", "C05", "C11")
     fragment = "L"
     doc = ("_delete_reference(line, key): if key is present and line occurs in self._refs[key], exactly ONE occurrence is removed, "
            "the order of the others is kept; otherwise the list is unchanged; no KeyError / IndexError; loop invariant: idx is the last "
@@ -68,7 +68,7 @@ class DeleteReference(Contract):
 @register
 class AddReference(Contract):
     fn = "gfapy/line/common/connection.py::Connection._add_reference"
-    props = ("C02",)
+    props = ("C02", "C11", "C16")
     fragment = "L"
     doc = ("_add_reference(line, key, append): exactly one occurrence of line is added to self._refs[key] (at the end, or at the front when "
            "append is false); the other elements keep their order; a missing key is created")
